@@ -9,7 +9,8 @@ import copy
 HOSTS = ['a.test', 'b.test', 'c.test']
 IPS = {'a.test': '10.0.0.1', 'b.test': '10.0.0.2', 'c.test': '10.0.0.3'}
 
-DEFAULT_OPTS = dict(recursive=1, level=0, pagereq=0, spanhosts=0, strong=1, tries=2, maxredir=3, robots=0, auth=0, sitemaps=0)
+DEFAULT_OPTS = dict(recursive=1, level=0, pagereq=0, spanhosts=0, strong=1, tries=2, maxredir=3, robots=0, auth=0, sitemaps=0,
+                    tags='')
 
 
 def U(i, kind='page', links=(), host='a.test', rto=0, rejected=0, disallowed=0, nofollow=0, path=None, **kw):
@@ -113,6 +114,8 @@ def argv(scn, db, directory):
         a.append('--no-robots')
     if o.get('sitemaps'):
         a.append('--sitemaps')
+    if o.get('tags'):
+        a += o['tags'].split()
     if o['auth'] == 1:
         a += ['--http-user', 'u', '--http-password', 'p']
     elif o['auth'] == 2:
@@ -330,6 +333,20 @@ def c20_catalogue(quick):
     out.append(scenario('robots-own-group-capitalised', [U(1, links=[2, 3]), U(2, disallowed=1), U(3)], dict(robots=1), N=1, robots=own))
     own2 = {'a.test': {'kind': 'rules', 'agent': 'WPULL', 'disallow': [], 'extra': 'Disallow: /priv/\n\nUser-agent: *\nDisallow:\n'}}
     out.append(scenario('robots-own-group-uppercase', [U(1, links=[2, 3]), U(2, disallowed=1), U(3)], dict(robots=1), N=1, robots=own2))
+    # the file is not valid UTF-8 (a Latin-1 byte in a comment): its rules still count
+    l1 = {'a.test': {'kind': 'rules', 'encoding': 'latin-1', 'disallow': [], 'extra': '# caf\xe9 du coin\nDisallow: /priv/\n'}}
+    out.append(scenario('robots-latin1-comment', [U(1, links=[2, 3]), U(2, disallowed=1), U(3)], dict(robots=1), N=1, robots=l1))
+    # a.test's control file is redirected to a path of b.test that is not b.test's control file: b.test is still judged
+    # by its own robots.txt
+    xo = {'a.test': {'kind': 'rules', 'disallow': ['/none/'], 'via_redirect': {'host': 'b.test', 'path': '/files/a-robots.txt', 'body_len': 10}},
+          'b.test': {'kind': 'rules'}}
+    xs = [U(1, links=[2, 3, 4]), U(2, host='b.test', disallowed=1), U(3, host='b.test'), U(4)]
+    for n in (1, 2):
+        out.append(scenario('robots-redirected-across-origins-N%d' % n, xs, dict(robots=1, spanhosts=1), N=n, robots=xo))
+    # tag filters must not hide the nofollow declaration
+    nf = [U(1, links=[2, 3]), U(2, nofollow=1, links=[4]), U(3), U(4)]
+    for tg in ('--follow-tags a', '--ignore-tags meta', '--ignore-tags img,meta,link'):
+        out.append(scenario('robots-nofollow-tagfilter[%s]' % tg, nf, dict(robots=1, tags=tg), N=1, robots=rules))
     # rules that mention the query string
     q = [U(1, links=[2, 3, 4, 5]), U(2, path='/search?q=1', disallowed=1), U(3, path='/search'), U(4, path='/page?action=edit', disallowed=1),
          U(5, path='/page?action=view')]
